@@ -31,6 +31,8 @@ TRUSTED = ["recording stub pool / queue wrapper in the L1 driver", "stub executo
 
 DRIVERS = {
     "l1": {"kind": "gotest", "pkg": "lib/dispatchcloud/scheduler", "test": "TestVerifC14", "min_chunk": 400},
+    "l2": {"kind": "gotest", "pkg": "lib/dispatchcloud/worker", "test": "TestVerifC14", "min_chunk": 100,
+           "isolate": True, "case_timeout": 60},
 }
 
 STATES = "QLRCXO"
@@ -153,8 +155,95 @@ def _gen_la(rng, n):
     return out
 
 
+def _gen_pl(rng, n):
+    out = []
+    for _ in range(n):
+        ids = rng.sample([1, 2, 3], rng.choice([1, 2, 2, 3, 3]))
+        ranks = rng.sample(range(1, 40), 2 * len(ids))
+        ws = []
+        used = set()
+        for i, wid in enumerate(ids):
+            st = rng.choice("UBIIIRRS")
+            ib = rng.choice("rrrrhd")
+            sg, rg = [], []
+            if st in "RUS" or rng.random() < 0.1:
+                for u in rng.sample([1, 2, 3, 4, 5], rng.choice([0, 1, 1, 2])):
+                    if u in used and rng.random() < 0.8:
+                        continue
+                    used.add(u)
+                    (sg if rng.random() < 0.3 else rg).append(u)
+            if st == "R" and not sg and not rg:
+                rg.append(rng.choice([1, 2, 3, 4, 5]))
+            ws.append("%d:%d:%s:%s:%s:%s:%d:%d" % (wid, rng.choice([1, 1, 2]), st, ib,
+                      "/".join(map(str, sg)) or "-", "/".join(map(str, rg)) or "-", ranks[2 * i], ranks[2 * i + 1]))
+        ex = ["%d:%d" % (u, rng.randint(1, 40)) for u in [1, 2, 3, 4, 5, 6] if rng.random() < 0.12]
+        known = list(ids)
+        inflight = set()
+        ops = []
+        # A start whose runner was adopted by a probe and then closed must not complete afterwards:
+        # the real completion closure re-inserts the closed runner and the next closeRunner panics
+        # ("close of closed channel", notes/C14.md observation O1) -- outside C14, so not generated.
+        pending, adopted, tainted = set(), set(), set()
+        for _ in range(rng.randint(1, 16)):
+            r = rng.random()
+            w = rng.choice(known)
+            u = rng.choice([1, 2, 3, 4, 5])
+            if r < 0.17:
+                ops.append("st%d:%d" % (rng.choice([1, 1, 2]), u))
+                pending.add(u)
+            elif r < 0.27:
+                if u in tainted:
+                    continue
+                ops.append("sd%d" % u)
+            elif r < 0.33:
+                ops.append("kl%d" % u)
+            elif r < 0.38:
+                ops.append("fg%d" % u)
+            elif r < 0.44:
+                ops.append("rn")
+            elif r < 0.51:
+                ops.append("cr%d:%d" % (w, u))
+                if u in adopted:
+                    tainted.add(u)
+            elif r < 0.55:
+                ops.append("sh%d" % w)
+            elif r < 0.60:
+                ops.append("ib%d:%s:%d" % (w, rng.choice("rhd"), rng.random() < 0.3))
+            elif r < 0.64:
+                ops.append("th")
+            elif r < 0.70:
+                listed = [x for x in known if x in inflight or rng.random() < 0.7]
+                for new in (4, 5):
+                    if new not in known and rng.random() < 0.3:
+                        listed.append(new)
+                        known.append(new)
+                rng.shuffle(listed)
+                ops.append("sy%d:%s" % (rng.random() < 0.3, "/".join(
+                    "%d.%d.%s.%d" % (x, rng.choice([1, 1, 2]), rng.choice("nnrhd"), rng.random() < 0.5) for x in listed) or "-"))
+            elif r < 0.80:
+                ops.append("pb%d:%d" % (w, rng.random() < 0.2))
+                inflight.add(w)
+            elif r < 0.87:
+                ops.append("pm%d:%d" % (w, rng.random() < 0.7))
+            else:
+                us = rng.sample([1, 2, 3, 4, 5], rng.choice([0, 0, 1, 1, 2]))
+                ops.append("pa%d:%d:%d:%d:%s" % (w, rng.random() < 0.85, rng.random() < 0.15, rng.random() < 0.3,
+                                                 "/".join(map(str, us)) or "-"))
+                inflight.discard(w)
+                for x in adopted:
+                    if x not in us:
+                        tainted.add(x)
+                for x in us:
+                    if x in pending:
+                        adopted.add(x)
+        ops.append("rn")
+        out.append("pl %s %s %s" % (",".join(ws), ",".join(ex) or "-", ",".join(ops)))
+    return out
+
+
 def generate(rng, tier):
     cases = []
+    cases += _gen_pl(rng, 1500 if tier == "quick" else 60000)
     cases += _gen_rq_exhaustive(tier, rng)
     cases += _gen_rq_random(rng, 3000 if tier == "quick" else 120000)
     cases += _gen_sy(rng, tier)
@@ -166,7 +255,7 @@ def generate(rng, tier):
 
 def compare(case, impl, model):
     op = case.split(" ", 1)[0]
-    if op == "rq":
+    if op in ("rq", "pl"):
         return impl in model.split("|")
     return impl == model
 
@@ -294,6 +383,33 @@ def _oracle_la(f, impl):
     return None
 
 
+def _oracle_pl(f, impl):
+    parts = impl.split(";")
+    if len(parts) != 3:
+        return "driver could not observe the pool: " + impl[:200]
+    for tok in _split(parts[0]):
+        m = re.fullmatch(r"w(\d+)([UBIRS])([rhd])", tok)
+        if m and (m.group(2) != "I" or m.group(3) != "r"):
+            return (f"container started on instance {m.group(1)} in state {m.group(2)} with idle "
+                    f"behaviour {m.group(3)} (must be idle and run)")
+    # Running() must report every container the pool still tracks
+    toks = _split(parts[0])
+    if f[3].endswith(",rn") or f[3] == "rn":
+        seen = set() if toks[-1] == "none" else {int(x.rstrip("x")) for x in toks[-1].split(".")}
+        tracked = set()
+        for w in _split(parts[1]):
+            wf = w.split(":")
+            for lst in (wf[3], wf[4]):
+                if lst != "-":
+                    tracked |= {int(x) for x in lst.split("/")}
+        ex = parts[2][3:]
+        if ex != "-":
+            tracked |= {int(x) for x in ex.split("/")}
+        if not tracked <= seen:
+            return f"Running() does not report tracked containers {sorted(tracked - seen)}"
+    return None
+
+
 def oracle(case, impl):
     """Property text on implementation output only."""
     f = case.split(" ")
@@ -307,6 +423,8 @@ def oracle(case, impl):
         return _oracle_sy(f, impl)
     if f[0] == "la":
         return _oracle_la(f, impl)
+    if f[0] == "pl":
+        return _oracle_pl(f, impl)
     return None
 
 
@@ -316,6 +434,8 @@ def nontrivial_key(case, impl):
         return case if impl not in ("-;-", "bad-op") else None
     if f[0] == "la":
         return case if "0" in impl.split(";")[0] else None
+    if f[0] == "pl":
+        return case if impl.count(";") == 2 else None
     return case
 
 
